@@ -704,13 +704,17 @@ func main() {
 			checkC16(r, res)
 		case "C09":
 			checkC09Decode(r, res)
+			checkC09Hint(r, res)
 		}
 	}
 	if *prop == "C14" {
 		runC14ConfigPath(r)
 	}
 	if *prop == "C09" {
+		runC09NonceMatrix(r)
 		runC09Interop(r)
 		runC09InteropServer(r)
+		runC09InteropUDPServer(r)
+		runC09Rekey(r)
 	}
 }
